@@ -55,8 +55,13 @@ Definition desc_leb (d1 d2 : desc) : bool :=
   | DAttr d, DAttr d' => implb d' d
   | _, _ => false
   end.
-(* same structures in the same order, each description at least as specific *)
+(* an intent nothing satisfies: it contains an empty interval / empty set-valued description *)
+Definition unsat_intent (ds : mv_intent) : bool :=
+  existsb (fun id => match snd id with DIv None | DSet None => true | _ => false end) ds.
+(* ds1 is at least as specific as ds2: nothing satisfies ds1, or same structures in the same order,
+   each description at least as specific *)
 Definition intent_leb (ds1 ds2 : mv_intent) : bool :=
+  unsat_intent ds1 ||
   forallb2 (fun a b => Nat.eqb (fst a) (fst b) && desc_leb (snd a) (snd b)) ds1 ds2.
 Definition antitone_mv (lt : nat -> nat -> bool) (intents : list mv_intent) : Prop :=
   forall i j, i < length intents -> j < length intents -> lt i j = true ->
